@@ -209,6 +209,57 @@ let oracle (toks : string list) (impl : string list) : string option =
         else if le <> b2s (not c') then Some "operator<= disagrees"
         else if ge <> b2s (not c) then Some "operator>= disagrees"
         else if eq <> b2s e then Some "operator== disagrees" else None
+    | "key" :: "border" :: n :: rest, pos :: pos2 :: rk :: _ ->
+      let n = int_of_n (n_of_hex n) in
+      let rec ents i l = if i = 0 then ([], l) else
+          match l with s :: ln :: r -> let (e, r') = ents (i - 1) r in (mk_t (n_of_hex s) (n_of_hex ln) :: e, r')
+                     | _ -> failwith "border args" in
+      let (es, r) = ents n rest in
+      let k = (match r with s :: l :: _ -> mk_t (n_of_hex s) (n_of_hex l) | _ -> failwith "border key") in
+      let rec sorted = function a :: (b :: _ as t) -> canon_lt a b && sorted t | _ -> true in
+      if not (List.for_all kt_wf es && kt_wf k && sorted es) then None else
+        let same a b = N.eqb a.ks b.ks && N.eqb a.kl b.kl in
+        let rec idx i = function [] -> None | t :: r -> if same t k then Some i else idx (i + 1) r in
+        let want = (match idx 0 es with None -> "none" | Some i -> hex_of_n (n_of_int i)) in
+        if pos <> want then Some "leaf lookup disagrees with the canonical order"
+        else if pos2 <> want then Some "locked leaf lookup disagrees with the canonical order"
+        else if rk <> "-" && rk <> hex_of_n (n_of_int (List.length (List.filter (fun t -> canon_lt t k) es)))
+        then Some "compute_rank_if_insert disagrees with the canonical order" else None
+    | "key" :: "interior" :: n :: rest, ci :: ki :: _ ->
+      let n = int_of_n (n_of_hex n) in
+      let rec ents i l = if i = 0 then ([], l) else
+          match l with s :: ln :: r -> let (e, r') = ents (i - 1) r in (mk_t (n_of_hex s) (n_of_hex ln) :: e, r')
+                     | _ -> failwith "interior args" in
+      let (es, r) = ents n rest in
+      let k = (match r with s :: l :: _ -> mk_t (n_of_hex s) (n_of_hex l) | _ -> failwith "interior key") in
+      let rec sorted = function a :: (b :: _ as t) -> canon_lt a b && sorted t | _ -> true in
+      if not (List.for_all kt_wf es && kt_wf k && sorted es) then None else
+        let le_cnt = List.length (List.filter (fun t -> not (canon_lt k t)) es) in
+        if ci <> hex_of_n (n_of_int le_cnt) then Some "interior routing disagrees with the canonical order"
+        else if ki <> "-" && not (List.exists (fun t -> N.eqb t.ks k.ks && N.eqb t.kl k.kl) es)
+                && ki <> hex_of_n (n_of_int (le_cnt + 1))
+        then Some "interior insert position disagrees with the canonical order" else None
+    | "val" :: "create" :: len :: al :: _,
+      [nsz; nal; glen; boff; gsz; gal; isptr; needdel; gpok; same; aligned; dsz; dal; nc; dc] ->
+      let len = int_of_n (n_of_hex len) and al = int_of_n (n_of_hex al) in
+      let iv x = int_of_n (n_of_hex x) in
+      let a = max al 8 in
+      if iv nsz <> len + a then Some "allocated size <> len + max(align,8)"
+      else if iv nal <> a then Some "allocation alignment wrong"
+      else if iv glen <> len then Some "get_len <> stored length"
+      else if iv boff < 8 then Some "body overlaps the header"
+      else if iv boff + len > iv nsz then Some "body exceeds the block"
+      else if aligned <> "1" then Some "body not aligned as requested"
+      else if same <> "1" then Some "stored bytes differ"
+      else if isptr <> "1" || needdel <> "1" || gpok <> "1" then Some "pointer flags wrong"
+      else if iv gsz <> iv nsz || iv gal <> iv nal then Some "gc info differs from the allocation"
+      else if iv dsz <> iv nsz || iv dal <> iv nal then Some "released size/alignment differ from the allocation"
+      else if nc <> "1" || dc <> "1" then Some "allocation/release count wrong" else None
+    | "val" :: "inline" :: w :: _, [v; b; l; nd] ->
+      let w = n_of_hex w in
+      if is_value_ptr w then None
+      else if n_of_hex v <> w || (b <> "-" && n_of_hex b <> w) then Some "inline value not returned by value"
+      else if l <> "8" then Some "inline length wrong" else None
     | _ -> None
   with _ -> Some "oracle: unparsable implementation output"
 
